@@ -994,7 +994,13 @@ func (cs *State) enterNewRound(height int64, round int32) {
 	validators := cs.Validators
 	if cs.Round < round {
 		validators = validators.Copy()
-		validators.IncrementProposerPriority(tmmath.SafeSubInt32(round, cs.Round))
+		// One IncrementProposerPriority(1) per round, as a node that goes through the
+		// rounds one by one performs them. A single IncrementProposerPriority(n)
+		// rescales and centers the priorities only once, so a node skipping n rounds
+		// could end up with other priorities (and another proposer) than its peers.
+		for r := cs.Round; r < round; r++ {
+			validators.IncrementProposerPriority(1)
+		}
 	}
 
 	// Setup new round
